@@ -7,13 +7,14 @@ import Uhppote.Driver.Addr
 import Uhppote.Driver.Zones
 import Uhppote.Driver.Text
 import Uhppote.Driver.Insulate
+import Uhppote.Driver.Net
 /-! `oracle`: judges observations `case => implementation output` against the executable SPEC.
     Imports nothing regenerated (`Gen`), so it still builds when a regenerated file or a proof
     is broken. Answers `ok`, `unspecified` or `bad <what the property requires>`. -/
 open Uhppote
 
 def handlers : List (List String → List String → Option String) :=
-  [Driver.SpecBCD.handle, Driver.Order.spec, Driver.SpecCodec.handle, Driver.SpecOps.handle, Driver.EventsSpec.spec, Driver.Addr.spec, Driver.Zones.spec, Driver.Text.spec, Driver.Insulate.spec]
+  [Driver.SpecBCD.handle, Driver.Order.spec, Driver.SpecCodec.handle, Driver.SpecOps.handle, Driver.EventsSpec.spec, Driver.Addr.spec, Driver.Zones.spec, Driver.Text.spec, Driver.Insulate.spec, Driver.Net.spec]
 
 def handle (ts : List String) : String :=
   let (c, impl) := Driver.splitObs ts
